@@ -656,6 +656,60 @@ def check_trace_validate(prop, tier, repo, verif):
     return res
 
 
+def check_lookup_balance(prop, tier, repo, verif):
+    t0 = time.time()
+    nrand = 1500 if tier == 'thorough' else 400
+    res = {'unit': 'bounded:lookup_balance', 'engine': 'bounded run of the real assembler + processor with Trace::build_aux_segment (tools/lookupcheck, adapted from the C12 sub-agent\'s demo; release build)', 'status': 'ok',
+           'failures': [], 'undecided': [], 'bounded': True,
+           'bound': '%d generated programs (every operation that talks to a chiplet with boundary operands: hperm, mtree_get / set / merge / verify on advice-provided trees of depth 1..8, u32and / u32xor, all memory operations across root / call / nested call / syscall / dyncall contexts, mstream / pipe / rcomb_base; spans of 1..3 batches with every push pattern (RESPAN); join / split / loop (0, 1, n iterations) / call / syscall / dyn nestings to depth 4; kernels with 0 / 1 / 3 procedures called 0 / 1 / many times; 0..40 elements through the overflow table; %d seeded random programs); 3 pseudo-random challenge vectors in the quadratic extension each; checked: the initial and the terminal value (last row before the random rows) of all 7 auxiliary columns against the documented ones, and an INDEPENDENT recount from the main segment alone (raw column indices): multiset of chiplet-bus requests of the decoder / stack rows == multiset of responses in the hasher / bitwise / memory / kernel-ROM rows, 16-bit range checks requested == range-checker table multiplicities, stack overflow table rows' % (7133 + nrand, nrand)}
+    binp, err = build_tool(repo, verif, 'lookupcheck', release=True)
+    if binp is None:
+        res['status'] = 'undecided'
+        res['undecided'].append('lookupcheck does not build against the current tree: ' + err)
+        return res
+    try:
+        p = subprocess.run([binp, '--random', str(nrand)], stdout=subprocess.PIPE, stderr=subprocess.PIPE, text=True, timeout=7200)
+    except subprocess.TimeoutExpired:
+        res['status'] = 'undecided'
+        res['undecided'].append('lookupcheck timed out')
+        return res
+    m = re.search(r'SUMMARY programs=(\d+) executed=(\d+) rows=(\d+) findings=(\d+) invalid=(\d+)', p.stdout)
+    if not m:
+        res['status'] = 'undecided'
+        res['undecided'].append('lookupcheck gave no summary (panic?): ' + (p.stdout + p.stderr)[-500:])
+        return res
+    seen = set()
+    for ln in p.stdout.split('\n'):
+        mm = re.match(r'FAILCASE (\S+) :: (.*?) :: (.*?) :: (.*)', ln)
+        if not mm:
+            continue
+        kind, what, detail, rest = mm.groups()
+        if kind == 'invalid':
+            res['undecided'].append('lookupcheck generator: ' + detail[:300])
+            continue
+        if kind == 'K9':
+            continue      # the generated program itself violates a documented precondition of RCOMBBASE: not a defect
+        if kind == 'finding':
+            key = 'finding:%s' % re.sub(r'[^A-Za-z0-9]+', '-', what).strip('-')[:70]
+        else:
+            key = '%s:' % kind
+        if key in seen or len(seen) > 40:
+            continue
+        seen.add(key)
+        res['failures'].append({'obligation': '%s/bounded/lookup_balance#%s' % (prop, key), 'message': 'an auxiliary column misses its specified value / a lookup multiset is unbalanced: %s: %s' % (what[:120], detail[:400]),
+                                'rendered': ln[:1800], 'origins': ['processor/src/chiplets/aux_trace/mod.rs', 'processor/src/decoder/aux_trace', 'processor/src/stack/aux_trace.rs', 'processor/src/range', 'processor/src/trace/utils.rs', 'processor/src/chiplets', 'air/src/trace/main_trace.rs'],
+                                'failing_input': {'class': kind, 'case': what[:300], 'violation': detail[:600], 'program_and_inputs': rest[:1600], 'cmd': '.cache/target/release/lookupcheck --random %d' % nrand}})
+    if int(m.group(4)) and not [f for f in res['failures'] if '#finding:' in f['obligation']]:
+        res['failures'].append({'obligation': '%s/bounded/lookup_balance#failures' % prop, 'message': '%s findings' % m.group(4), 'rendered': p.stdout[-800:], 'origins': []})
+    if res['failures']:
+        res['status'] = 'fail'
+    elif res['undecided']:
+        res['status'] = 'undecided'
+    res['wall_s'] = round(time.time() - t0, 1)
+    res['checker_cmd'] = 'tools/lookupcheck --random %d (built against the current tree): %s programs executed, %s main-trace rows inspected' % (nrand, m.group(2), m.group(3))
+    return res
+
+
 def check_hash_invariance(prop, tier, repo, verif):
     t0 = time.time()
     res = {'unit': 'bounded:hash_invariance', 'engine': 'bounded run of the real assembler and processor (tools/hashprobe)', 'status': 'ok',
